@@ -39,7 +39,7 @@ namespace via
       /// query and fragment with the appropriate text from the uri.
       /// @param uri the uri from an HTTP request
       explicit request_uri(std::string_view uri)
-        : path_(uri.data())
+        : path_(uri)
         , query_()
         , fragment_()
       {
